@@ -69,6 +69,26 @@ fn synthetic(seed: u64) -> Vec<(String, String)> {
         }
         out.push((format!("synthetic-{k}"), s));
     }
+    // many type extensions without a definition, of every kind (adopted by one builder mode, diagnosed by the other),
+    // many duplicate definitions, many undefined references
+    for k in 0..3 {
+        let mut s = String::from("extend type Query { a: Int }\n");
+        for i in 0..rng.range(4, 9) {
+            let n = format!("N{}x{i}", (b'A' + ((i * 7 + k) % 26) as u8) as char);
+            match i % 6 {
+                0 => s.push_str(&format!("extend type {n} {{ f: Int }}\n")),
+                1 => s.push_str(&format!("extend interface {n} {{ f: Int }}\n")),
+                2 => s.push_str(&format!("extend enum {n} {{ V }}\n")),
+                3 => s.push_str(&format!("extend input {n} {{ f: Int }}\n")),
+                4 => s.push_str(&format!("extend union {n} = Query\n")),
+                _ => s.push_str(&format!("extend scalar {n} @specifiedBy(url: \"u\")\n")),
+            }
+        }
+        for i in 0..rng.range(2, 5) {
+            s.push_str(&format!("type Dup{k} {{ f{i}: Undefined{i} }}\ndirective @dd{k} on FIELD\n"));
+        }
+        out.push((format!("synthetic-orphans-{k}"), s));
+    }
     out
 }
 
@@ -83,6 +103,24 @@ fn schema_digests(id: &str, src: &str, out: &mut Out) {
             }
         };
         lines.push(("ast-serialization", fnv(&ast.to_string())));
+        // every SchemaBuilder mode
+        for (mode, adopt, ignore) in [("builder-adopt-orphans", true, false), ("builder-ignore-builtin-redefinitions", false, true), ("builder-both", true, true)] {
+            let mut b = Schema::builder();
+            if adopt {
+                b = b.adopt_orphan_extensions();
+            }
+            if ignore {
+                b = b.ignore_builtin_redefinitions();
+            }
+            let b = b.parse(src.to_string(), "b.graphql");
+            let orphans: Vec<String> = b.iter_orphan_extension_types().map(|n| n.to_string()).collect();
+            let (schema, errors) = match b.build() {
+                Ok(s) => (s, String::new()),
+                Err(e) => (e.partial, e.errors.to_string()),
+            };
+            let text = format!("{}\n--\n{}\n--\n{}\n--\n{}", orphans.join(","), schema.types.keys().map(|k| k.as_str()).collect::<Vec<_>>().join(","), schema, errors);
+            lines.push((mode, fnv(&text)));
+        }
         match ast.to_mixed_validate() {
             Ok((schema, doc)) => {
                 lines.push(("schema-serialization", fnv(&schema.to_string())));
